@@ -55,7 +55,7 @@ SuBad(t)       == {n \in QIds(t.arch) : ~Rec(t, n).su_ok
                                         \/ (n \in LayersOf(t) /\ (Len(Rec(t, n).su_w) # Ch(t.arch, n)
                                                                   \/ Len(Rec(t, n).th_w) # Ch(t.arch, n)))}
 HistBad(t)     == t.hist_err # ""
-(* Finding F70: copy.deepcopy of an MPS model raises RuntimeError ("Only Tensors created explicitly by the user support the   *)
+(* Finding F74: copy.deepcopy of an MPS model raises RuntimeError ("Only Tensors created explicitly by the user support the   *)
 (* deepcopy protocol") when the theta_alpha buffers hold the result of a forward pass that ran with autograd enabled.          *)
 ThetaProducers == {"fwd_g", "sgd_net", "sgd_all", "fwd_n", "fwd_eval", "fwd_hard", "fwd_ghard", "export!"}
 ForkAfterGrad(t) ==
@@ -64,7 +64,7 @@ ForkAfterGrad(t) ==
        P # {} /\ t.hist[CHOOSE j \in P : \A k \in P : k <= j] \in {"fwd_g", "sgd_net", "sgd_all"}
 HistVerdict(t, pid) ==
     IF ForkAfterGrad(t)
-    THEN "known:F70:copy.deepcopy of the model raises after a forward pass with autograd enabled (call " \o Str(t.hist_err_pos) \o " of the history)"
+    THEN "known:F74:copy.deepcopy of the model raises after a forward pass with autograd enabled (call " \o Str(t.hist_err_pos) \o " of the history)"
     ELSE pid \o ".call: a public call raised: " \o t.hist_err
 
 (* --------------------------- C02 --------------------------------------- *)
